@@ -123,7 +123,12 @@ type Plan struct {
 	// LiveShutdown: odd reports may include SHUTDOWN for a connection the
 	// balancer did not remove (never done by grpc-go; C05 only, see run.go)
 	LiveShutdown bool `json:"live_shutdown,omitempty"`
-	Ops          []Op `json:"ops"`
+	// CloseEnd: the run ends with gRPC closing the balancer while calls are in
+	// flight (instead of the heal phase)
+	CloseEnd bool `json:"close_end,omitempty"`
+	// Verbose: gRPC log verbosity 99 for this run (code under log.V(...) runs)
+	Verbose bool `json:"verbose,omitempty"`
+	Ops     []Op `json:"ops"`
 	// Suffix: concurrent plans only - a short serial operation list executed with
 	// the full model after the burst has quiesced and healed (fresh keys only).
 	Suffix []Op `json:"suffix,omitempty"`
@@ -333,6 +338,13 @@ func Generate(r *rand.Rand, profile string, concurrent bool, av Avoid) *Plan {
 	if !concurrent && (profile == "chaos" || profile == "state" || profile == "refresh") && r.IntN(6) == 0 {
 		p.LiveShutdown = true
 	}
+	if !concurrent && profile == "chaos" && r.IntN(4) == 0 {
+		p.LiveShutdown = true
+	}
+	if !concurrent && r.IntN(10) == 0 {
+		p.CloseEnd = true
+	}
+	p.Verbose = r.IntN(8) == 0 || (profile == "chaos" && r.IntN(4) == 0)
 	if concurrent {
 		p.Strategy = r.IntN(4)
 	}
@@ -549,6 +561,37 @@ func Generate(r *rand.Rand, profile string, concurrent bool, av Avoid) *Plan {
 			frag = append(frag, Op{K: OpPick, B: MPlain}, Op{K: OpConn, A: -1, B: ConnProgress}, Op{K: OpConn, A: -1, B: ConnProgress})
 		}
 		at := 1 + r.IntN(3)
+		ops := append([]Op{}, p.Ops[:at]...)
+		ops = append(ops, frag...)
+		p.Ops = append(ops, p.Ops[at:]...)
+	}
+	// Directed fragment (scale): one channel collects more than a thousand bound
+	// keys (two BIND replies with a repeated key field), then a second channel
+	// comes up and unkeyed calls are held: least-loaded placement must not depend
+	// on how many keys a channel holds, however many.
+	if (profile == "load" || profile == "affinity") && !concurrent && (p.Cfg.Locator == 2 || p.Cfg.Locator == 3) && !p.Cfg.RR && r.IntN(12) == 0 && len(p.Ops) > 4 {
+		if p.Cfg.Min < 2 {
+			p.Cfg.Min = 2
+		}
+		if p.Cfg.Max != 0 && p.Cfg.Max < p.Cfg.Min {
+			p.Cfg.Max = p.Cfg.Min
+		}
+		frag := []Op{{K: OpConn, A: 0, B: ConnProgress}, {K: OpConn, A: 0, B: ConnProgress}}
+		base := 200
+		for rep := 0; rep < 2; rep++ {
+			n := 520 + r.IntN(200)
+			ks := make([]int, n)
+			for j := range ks {
+				ks[j] = base + j
+			}
+			base += n
+			frag = append(frag, Op{K: OpPick, B: MBind, Keys: []int{0}}, Op{K: OpDone, A: -1, B: OutOK, Keys: ks})
+		}
+		frag = append(frag, Op{K: OpConn, A: 1, B: ConnProgress}, Op{K: OpConn, A: 1, B: ConnProgress})
+		for c := 0; c < 6; c++ {
+			frag = append(frag, Op{K: OpPick, B: MPlain})
+		}
+		at := 1 + r.IntN(2)
 		ops := append([]Op{}, p.Ops[:at]...)
 		ops = append(ops, frag...)
 		p.Ops = append(ops, p.Ops[at:]...)
